@@ -18,6 +18,7 @@ pub uninterp spec fn zero_f64() -> F64;
 pub broadcast axiom fn ax_zero_f64() ensures (#[trigger] zero_f64())@ == XR::Fin(0real);
 pub open spec fn ofun(i: v1::Instance) -> v1::Function { match i.objective { Some(f) => f, None => zero_fn() } }
 ''')
+    asm.file('spec/fn_algebra_rem.rs')
     asm.file('spec/fn_algebra.rs')
     asm.raw('} // mod lib\npub mod units {\n' + common.UNITS_USES + 'use super::lib::v1::instance::Sense;\nbroadcast use super::lib::ax_zero_f64;\n')
     asm.raw(fn_stubs.NEG + fn_stubs.ZERO, 'assumed callee contracts (Neg for Function, Function::zero)')
